@@ -1,63 +1,15 @@
 package websocket
 
-import (
-	"bufio"
-	"io"
-)
-
 // C07.own: bounded histories on two connections that share the package-level pools (LIFO hits, monitored): every byte a
 // connection's reads return was sent on that connection, nothing pooled is used after it was put, nothing is put twice,
 // and a connection that reuses pooled state starts from a clean slate.
 
 func vGhostPoolMonitor(on bool) {}
 
-// vPoolViolations: in the engine, the number of use-after-put / double-put events seen by the monitored pool model.
-// Natively the same defect is observed from outside: an object that sits in one of the library's pools while a
-// connection still holds (and, when the put happened inside its own read stack, was still executing on) it.
-func vPoolViolations(conns []*Conn) int {
-	if vEngine() {
-		return vGhostPoolViolations()
-	}
-	n := 0
-	var keepR []interface{}
-	for i := 0; i < 16; i++ {
-		x := bufioReaderPool.Get()
-		if x == nil {
-			break
-		}
-		keepR = append(keepR, x)
-		for _, c := range conns {
-			if br, ok := x.(*bufio.Reader); ok && (br == c.msgReader.flateBufio || br == c.br) {
-				n++
-			}
-		}
-	}
-	for _, x := range keepR {
-		bufioReaderPool.Put(x)
-	}
-	var keepF []interface{}
-	for i := 0; i < 16; i++ {
-		x := flateReaderPool.Get()
-		if x == nil {
-			break
-		}
-		keepF = append(keepF, x)
-		for _, c := range conns {
-			if r, ok := x.(io.Reader); ok && (r == c.msgReader.flateReader || r == c.msgReader.limitReader.r) {
-				n++
-			}
-		}
-	}
-	for _, x := range keepF {
-		flateReaderPool.Put(x)
-	}
-	return n
-}
-
 // vBackrefProbe is a DEFLATE fixed-Huffman block consisting of one match (length 3, distance 1) and end-of-block,
 // followed by the header of the empty stored block that the stripped 00 00 ff ff tail completes. At the very start of a
 // stream the match reaches before the stream: it is only decodable if foreign history was left in the window.
-var vBackrefProbe = []byte{0x02, 0x04, 0x00, 0x00}
+var vBackrefProbe = []byte{0x02, 0x02, 0x00, 0x00}
 
 type vC07Conn struct {
 	c       *Conn
@@ -218,11 +170,7 @@ func verifC07_own() {
 	if b != nil {
 		b.check("C07.own.B")
 	}
-	conns := []*Conn{a.c}
-	if b != nil {
-		conns = append(conns, b.c)
-	}
-	vAssert(vPoolViolations(conns) == 0, "C07.own.pool-discipline")
+	vAssertGhost(vGhostPoolViolations() == 0, "C07.own.pool-discipline")
 	a.c.CloseNow()
 	if b != nil {
 		b.c.CloseNow()
